@@ -6,7 +6,8 @@ patch=$(readlink -f "$1"); props=$2; shift 2
 cd "$(dirname "$(readlink -f "$0")")/.." && . ./env.sh
 d=$(mktemp -d /tmp/mut-XXXXXX)
 trap 'rm -rf $d' EXIT
-mkdir -p $d/repo && git -C /repo archive HEAD | tar -x -C $d/repo   # the committed tree: uncommitted edits in /repo (contracts in progress) do not leak into mutant runs
+mkdir -p $d/repo
+if [ -n "$RUNMUTANT_WORKTREE" ]; then rsync -a --exclude .git /repo/ $d/repo/; else git -C /repo archive HEAD | tar -x -C $d/repo; fi  # default: the committed tree: uncommitted edits in /repo (contracts in progress) do not leak into mutant runs
 if ! (cd $d/repo && patch -p1 -s < "$patch"); then echo "PATCH-FAILED $patch"; exit 3; fi
 ./bin/govc check --props "$props" --repo $d/repo --evidence $d/ev --replays $d/rp --known known_findings.json --spec spec --bindings bindings.json "$@" 2>&1 | sed -e "s#$d/##g"
 rc=${PIPESTATUS[0]}; [ "$rc" = 2 ] && echo "GOVC-ERROR (does the patched tree compile?)"; exit $rc
